@@ -274,6 +274,11 @@ for _r, _props in REFACTORINGS.items():
     if _os.path.exists(_os.path.join(_ROOT, "benign", f"B6-{_r}", "refactor.diff")):
         CORPUS.append({"name": f"refactoring-B6-{_r}", "props": ALL.split(","), "kind": "benign", "edits": [],
                        "diff": f"benign/B6-{_r}/refactor.diff"})
+    # seventh pass, stacked on B6 (round B7: error-handling and control-flow style - EAFP <-> LBYL, try/else, suppress,
+    # for/else, guard clauses <-> nested ifs, De Morgan, conditional expressions <-> statements)
+    if _os.path.exists(_os.path.join(_ROOT, "benign", f"B7-{_r}", "refactor.diff")):
+        CORPUS.append({"name": f"refactoring-B7-{_r}", "props": ALL.split(","), "kind": "benign", "edits": [],
+                       "diff": f"benign/B7-{_r}/refactor.diff", "base": f"benign/B6-{_r}/refactor.diff"})
 # feature twins: the benign half of a seeded feature addition (the feature without the defect) - no check may report them
 for _f in sorted(_os.listdir(_os.path.join(_ROOT, "benign"))):
     if _f.startswith("F") and _os.path.exists(_os.path.join(_ROOT, "benign", _f, "refactor.diff")):
